@@ -741,7 +741,7 @@ pub fn run_relation_case(scenario: &Arc<Scenario>, sched: &SchedSpec, replay: Op
     let sb = Arc::new(sb);
     let mut sched_b = sched.clone();
     sched_b.seed = crate::prng::derive(sched.seed, 0xb0b);
-    sched_b.strategy = (sched.strategy + 1) % 6;
+    sched_b.strategy = (sched.strategy + 1) % 7;
     if let Some(b) = sim_variant("parallel-other-workers", &sb, &sched_b, None, false, &mut findings, &mut stats) {
         summaries.push(b);
     }
